@@ -90,8 +90,9 @@ class C09(Check):
 
     def generate(self, rng, stratum, tier):
         dt = rng.choice([1e-3, 0.01, 0.05])
-        steps = rng.randint(15, 60)
-        cfg = {'dt': dt, 'steps': steps, 'solver': 'heun' if stratum == 'S-heun' else 'euler',
+        m_sub = rng.choice([1, 1, 1, 2, 5])       # rows stored every m-th step (run mode): delay lines still advance per step
+        steps = m_sub * rng.randint(max(3, 15 // m_sub), 60 // m_sub)
+        cfg = {'dt': dt, 'steps': steps, 'm': m_sub, 'solver': 'heun' if stratum == 'S-heun' else 'euler',
                'vectorize': rng.random() < 0.5, 'mode': 'step' if stratum == 'S-step' else 'run',
                'sparseness': rng.choice([None, None, 0.0, 1.0]),
                # history: the same (or another) delayed model was compiled earlier in this process at another step size
@@ -315,8 +316,11 @@ class C09(Check):
                     pass
         try:
             if cfg['mode'] == 'run':
+                skw = {'sampling_step_size': cfg['m'] * dt} if cfg.get('m', 1) > 1 else {}
+                if skw:
+                    bump('subsampled')
                 c.run(T, dt, outputs=outputs, solver=cfg['solver'], vectorize=cfg['vectorize'], float_precision='float64',
-                      decorator=rec, verbose=False, **kw)
+                      decorator=rec, verbose=False, **skw, **kw)
             else:
                 bump('own_stepping')
                 f, args, anames, smap = c.get_run_func('vf', dt, vectorize=cfg['vectorize'], float_precision='float64',
